@@ -9,6 +9,7 @@ from ..runner import Rec, h64
 from ..refmodel import same_value
 from . import c01
 
+PATHFORMS = False      # (this check spells its input paths itself)
 PROPERTY = "C02"
 LEVEL = "model_checking"
 RULE = ("case = generated plotfile (ndims x 1..4 levels x mesh x origin x cell shape x time x field multiset incl. "
@@ -47,7 +48,7 @@ def cases(tier, seed):
     out = []
     times = list(scope.TIMES) + ([float("inf")] if tier == "thorough" else [])
     for nd in (2, 3):
-        meshes = list(scope.named_meshes(nd)) + [chain_mesh(nd, 4), chain_mesh(nd, 2)] + scope.thin_meshes(nd) + scope.far_index_meshes(nd)
+        meshes = list(scope.named_meshes(nd)) + [chain_mesh(nd, 4), chain_mesh(nd, 2), chain_mesh(nd, 12)] + scope.thin_meshes(nd) + scope.far_index_meshes(nd)
         if tier == "thorough":
             blocks = (2, 2) if nd == 2 else (2, 1, 2)
             for t in scope.level0_tilings(blocks, 4):
